@@ -121,8 +121,8 @@ Aff(n, p) == IF p \in DOMAIN known[n] THEN known[n][p].aff ELSE "None"
 Admitted(n, p) ==
   CASE Aff(n, p) \in {"High", "Allowed"} -> TRUE
     [] Aff(n, p) = "Never"               -> FALSE
-    [] OTHER -> \/ cfg[n].limit = NoLimit
-                \/ Cardinality(DOMAIN active[n]) < cfg[n].limit
+    [] OTHER -> IF cfg[n].limit = NoLimit THEN TRUE
+                ELSE Cardinality(DOMAIN active[n]) < cfg[n].limit
 
 -----------------------------------------------------------------------------
 (* Background dialing: handle_connectivity_check.                           *)
